@@ -228,9 +228,9 @@ Definition trunT := trun unit.
 Record tcue := mkTcue { c_st : Z; c_en : Z; c_lines : list (list trunT) }.
 
 (* the page's character decoder has no state of its own while a row is parsed *)
-Definition ttx_dec (c : list str) (_ : unit) (v : N) : res (str * unit) := do t <- cd_decode c v; Ok (t, tt).
+Definition ttx_cell_dec (c : list str) (_ : unit) (v : N) : res (str * unit) := do t <- cd_decode c v; Ok (t, tt).
 Definition ttx_parse_row (c : list str) (row : list N) : res (list trunT) :=
-  do r <- parse_row unit unit unit (ttx_dec c) None tt tt row; Ok (fst r).
+  do r <- parse_row unit unit unit (ttx_cell_dec c) None tt tt row; Ok (fst r).
 
 Fixpoint parse_rows (c : list str) (data : list (N * list N)) (rows : list N) : res (list (list trunT)) :=
   match rows with
